@@ -715,11 +715,12 @@ pub fn def() -> PropDef {
     PropDef {
         id: "C04",
         level: "fault_enumeration",
-        rule: "handshake: grid = local socket type (9) x peer Socket-Type (12 names, unknown, missing) x version {1.0,2.1,3.0,3.1,4.0} x mechanism {NULL,PLAIN,CURVE,unknown} x signature {ok, byte 0 wrong, byte 9 wrong} x identity {none, empty, 1, 255, 256 bytes} x first item {READY, other command, message} x side {accepted, connected} = 226800 scripted handshakes, each with drawn segmentation/schedule and, in half of the cases, drawn extra READY metadata (a short property, one 400-byte value, twenty properties, a property ahead of Socket-Type) that must decide nothing, and a drawn moment at which the monitor is installed (before bind, only after bind, or replaced after bind), compared with a reference admission predicate written from the statement and the RFC compatibility table (thorough: enumerated completely; quick: pseudo-random sample); observables: application message exchanged or not, monitor Accepted/AcceptFailed, connect() result, connection closed by the socket; registration: socket type (9) x 2..4 admissible peers, each announcing no identity, an empty one or a distinct non-empty one (1 byte, 255 bytes, leading zero byte, trailing zero bytes, white space), joining by connect-in at drawn times or by being dialled: exactly one admission event per peer, under the announced identity resp. pairwise distinct ones, no admitted connection closed by the socket, and each peer's traffic flows exactly once (probe delivered once / one copy per subscriber / n sends reach n peers); predicted_identity: socket type (9) x an identity announced next to a generated one (+-1..4, big or little endian) x 1..5 later anonymous peers, accepted or dialled: all registrations pairwise distinct, the announcing peer keeps its connection, its traffic and (ROUTER) its address; compat_table: the 144 SocketType::compatible queries (pure enumeration, a side check); distinct = distinct (configuration, plan, schedule, transport)",
+        rule: "handshake: grid = local socket type (9) x peer Socket-Type (12 names, unknown, missing) x version {1.0,2.1,3.0,3.1,4.0} x mechanism {NULL,PLAIN,CURVE,unknown} x signature {ok, byte 0 wrong, byte 9 wrong} x identity {none, empty, 1, 255, 256 bytes} x first item {READY, other command, message} x side {accepted, connected} = 226800 scripted handshakes, each with drawn segmentation/schedule and, in half of the cases, drawn extra READY metadata (a short property, one 400-byte value, twenty properties, a property ahead of Socket-Type) that must decide nothing, and a drawn moment at which the monitor is installed (before bind, only after bind, or replaced after bind), compared with a reference admission predicate written from the statement and the RFC compatibility table (thorough: enumerated completely; quick: pseudo-random sample); observables: application message exchanged or not, monitor Accepted/AcceptFailed, connect() result, connection closed by the socket; registration: socket type (9) x 2..4 admissible peers, each announcing no identity, an empty one or a distinct non-empty one (1 byte, 255 bytes, leading zero byte, trailing zero bytes, white space), joining by connect-in at drawn times or by being dialled: exactly one admission event per peer, under the announced identity resp. pairwise distinct ones, no admitted connection closed by the socket, and each peer's traffic flows exactly once (probe delivered once / one copy per subscriber / n sends reach n peers); readmission: the 96 departure/rejoin histories of C16 judged for 'the peer admitted again under its announced identity is registered: heard, reachable, labelled, connection kept'; predicted_identity: socket type (9) x an identity announced next to a generated one (+-1..4, big or little endian) x 1..5 later anonymous peers, accepted or dialled: all registrations pairwise distinct, the announcing peer keeps its connection, its traffic and (ROUTER) its address; compat_table: the 144 SocketType::compatible queries (pure enumeration, a side check); distinct = distinct (configuration, plan, schedule, transport)",
         assumptions: &["'known mechanism' is read as NULL, PLAIN or CURVE in the greeting, as the statement says (the library then performs the NULL handshake)", "the RFC table used by the oracle lists PAIR-PAIR, PUB/XPUB-SUB/XSUB, REQ-REP/ROUTER, DEALER-REP/DEALER/ROUTER, ROUTER-ROUTER, PUSH-PULL"],
         strata: vec![
             Stratum { name: "handshake", quick: 150_000, thorough: (GRID_SIZE) * 10, exhaustive: (false, true), run: handshake, what: "configuration grid of scripted handshakes vs the admission predicate" },
             Stratum { name: "registration", quick: 60_000, thorough: 3_000_000, exhaustive: (false, false), run: registration, what: "2..4 admissible peers per socket, identities none / empty / distinct edge shapes, accepted or dialled: registered once, under the announced or a unique identity, and still peers afterwards" },
+            Stratum { name: "readmission", quick: 9_600, thorough: 800_000, exhaustive: (false, false), run: super::c16::rejoin_registered, what: "a peer is admitted, leaves (close, cut, reset, or stays open and idle) and is admitted again under the identity it announced, at four timings, six socket types: the second admission registers it - it is heard, reachable, labelled with its identity and keeps its connection" },
             Stratum { name: "predicted_identity", quick: 30_000, thorough: 2_000_000, exhaustive: (false, false), run: predicted_identity, what: "an anonymous peer's generated identity is learnt from the monitor, a peer announces a neighbouring value, more anonymous peers join: generated identities stay fresh, the announcing peer stays a peer under its identity" },
             Stratum { name: "compat_table", quick: 144, thorough: 144, exhaustive: (true, true), run: compat_table, what: "144 compatibility queries: total, symmetric, equal to the RFC table" },
         ],
